@@ -46,6 +46,7 @@ func checkC06(p *load.Program, r *kit.Report) {
 	r.NotDecided = "linearizability under all interleavings (the lock-set result gives atomicity of each decision, not a proof about their composition); timing of the request timeout; the end-to-end inv→getdata→tx leg over a connection."
 	r.Rule("LOCKSET", "every access to TxData{LastRequested,Received,NodeIDs,ReceivedFrom} holds that entry's RWMutex (write mode for writes) and every access to txMap.txs holds the bucket's RWMutex; constructors exempt", 20)
 	r.Rule("TEST-AND-SET", "TxData.Received is stored only behind the nil edge of a test of the same entry's Received with the entry lock held continuously from the test to the store (or in the literal of a freshly inserted entry); sendTx is reachable only through that edge or the fresh-insert edge, at most once", 3)
+	r.Rule("RETENTION", "Clean keeps an entry whose latest activity — the delivery when delivered — is after the cut-off; removeID removes exactly one announcer", 2)
 	r.Rule("MUST-PASS", "AddTxID returns true only after stamping LastRequested (or inserting a fresh entry); GetTxRequests returns every txid it stamped (the accumulated list is returned unsliced) and appends a txid only behind Received == nil, contains(NodeIDs, nodeID) and the timeout test, after stamping; Run saves only relevant txs after ProcessTx", 5)
 
 	txData := func(n string) *types.Var { return p.Field(R, "TxData", n) }
@@ -67,6 +68,8 @@ func checkC06(p *load.Program, r *kit.Report) {
 		return ""
 	})
 
+	checkTxRetention(p, r, "RETENTION")
+	checkRemoveID(p, r, "RETENTION")
 	addTx := fn(p, r, "TEST-AND-SET", R, "TxManager.AddTx")
 	if addTx != nil {
 		li := kit.Lockset(addTx, nil)
